@@ -77,7 +77,7 @@ func (s e3Shape) render() map[string]string {
 				cmd += `; if [ -n "$VERIF_SPIN" ]; then : > spin.started; while [ ! -f never.flag ]; do :; done; fi`
 			}
 			if gen && k == n {
-				cmd += ` && mkdir -p out && printf g > out/gen.txt`
+				cmd += ` && mkdir -p out && printf g > out/gen.txt && printf g > out/gen2.txt`
 			}
 			fmt.Fprintf(&c, "      - cmd: %s\n", yamlq(cmd))
 			if s.Silent == "cmd" && name == "tut" {
@@ -96,7 +96,7 @@ func (s e3Shape) render() map[string]string {
 			fmt.Fprintf(&t, "    sources: %s\n", e3Globs[s.Glob].yaml)
 		}
 		if s.Gen {
-			t.WriteString("    generates: ['out/gen.txt']\n")
+			t.WriteString("    generates: ['out/gen.txt', 'out/gen2.txt']\n")
 		}
 		if s.Status {
 			t.WriteString("    status: ['test -f status.ok']\n")
@@ -163,7 +163,7 @@ func (s e3Shape) render() map[string]string {
 	b.WriteString("  withdir:\n    dir: newdir/sub\n    cmds:\n      - cmd: " + yamlq(`printf 'withdir c1\n' >> "$VERIF_TRACE"`) + "\n")
 	// a task with sources whose sub-call can be made to fail a precondition (read-only modes must not touch its state)
 	b.WriteString("  prefail:\n    preconditions: ['test -f pre.ok']\n    cmds:\n      - cmd: " + yamlq(`printf 'prefail c1\n' >> "$VERIF_TRACE"`) + "\n")
-	b.WriteString(strings.Replace(taskBody("withsub", false), "generates: ['out/gen.txt']\n", "", 1))
+	b.WriteString(strings.Replace(taskBody("withsub", false), "generates: ['out/gen.txt', 'out/gen2.txt']\n", "", 1))
 	b.WriteString("    cmds:\n      - cmd: " + yamlq(`printf 'withsub c1\n' >> "$VERIF_TRACE"`) + "\n      - task: prefail\n")
 	// a parent that runs the task under test next to a failing sibling
 	b.WriteString("  sibling:\n    cmds:\n      - cmd: " + yamlq(`i=0; while [ ! -f spin.started ] && [ $i -lt 30000 ]; do i=$((i+1)); done; exit 1`) + "\n")
@@ -346,8 +346,9 @@ func (st *e3State) stamp(rel string) {
 }
 
 func (st *e3State) genExists() bool {
-	_, err := os.Stat(filepath.Join(st.dir, "out/gen.txt"))
-	return err == nil
+	_, err1 := os.Stat(filepath.Join(st.dir, "out/gen.txt"))
+	_, err2 := os.Stat(filepath.Join(st.dir, "out/gen2.txt"))
+	return err1 == nil && err2 == nil
 }
 
 type e3Inv struct {
@@ -533,7 +534,10 @@ func (st *e3State) step(op e3Op, rng *rand.Rand, part *h.Partial) []e3Verdict {
 			rec.Op = "del-gen(skip)"
 			return nil
 		}
-		os.Remove(filepath.Join(st.dir, "out/gen.txt"))
+		// one of the two outputs (the other one still matches its generates entry)
+		which := []string{"out/gen.txt", "out/gen2.txt"}[rng.Intn(2)]
+		os.Remove(filepath.Join(st.dir, which))
+		rec.Op = "del-gen " + which
 		fileOp("del-gen")
 	case "status-off":
 		if !sh.Status || !st.statusOK {
